@@ -51,19 +51,35 @@ fn main() {
             let mut total = Report::default();
             let mut events: Vec<(u64, u64)> = Vec::new();
             let progress = arg(&args, "--progress");
+            let mut art = arg(&args, "--artifacts").map(|f| std::io::BufWriter::new(std::fs::File::create(f).unwrap()));
+            // explicit cases (one JSON per line) instead of generated ones: nodes consuming other nodes' output
+            let explicit: Option<Vec<Value>> = arg(&args, "--cases").map(|f| {
+                std::fs::read_to_string(f).unwrap().lines().filter(|l| !l.trim().is_empty()).map(|l| serde_json::from_str(l).unwrap()).collect()
+            });
+            let to = explicit.as_ref().map(|e| e.len() as u64).unwrap_or(to);
             for idx in from..to {
                 if idx % workers != worker {
                     continue;
                 }
                 let rs = run_seed(seed, p.id, idx);
                 let mut rng = Rng::new(rs);
-                let case = (p.gen)(&mut rng, tier);
+                let case = match &explicit {
+                    Some(e) => e[idx as usize].clone(),
+                    None => (p.gen)(&mut rng, tier),
+                };
                 if let Some(pf) = progress {
                     // case id is logged before the call so that an abort is attributable
                     let _ = std::fs::write(pf, format!("{} {} {}\n", p.id, idx, case));
                 }
                 let rep = exec_case(&p, &case);
                 events.push((idx, rep.event_digest));
+                if let Some(w) = art.as_mut() {
+                    for a in take_artifacts() {
+                        writeln!(w, "{}", json!({"idx": idx, "artifact": a})).unwrap();
+                    }
+                } else {
+                    take_artifacts();
+                }
                 let mut rep = rep;
                 for v in rep.violations.iter_mut() {
                     if let Value::Object(m) = &mut v.case {
